@@ -161,6 +161,20 @@ def decorate(n, rng):
     return n
 
 
+def one_bit_buses(n, rng, share=0.4):
+    """some one-pin ports and one-wire cables are declared as buses of width one (is_scalar False): legal, written
+    as (array p 1) / [0:0], and - like every other attribute - not the writer's to change"""
+    k = 0
+    for lib in n.libraries:
+        for d in lib.definitions:
+            for b in list(d.ports) + list(d.cables):
+                members = b.pins if isinstance(b, sdn.Port) else b.wires
+                if len(members) == 1 and b.is_scalar and rng.random() < share:
+                    b.is_scalar = False
+                    k += 1
+    return k
+
+
 def compose(n, fmt, path, opts):
     # the caller's option objects are handed over as they are (the same list object on every call of a case)
     sdn.compose(n, path, **opts)
@@ -242,7 +256,10 @@ def netlists(rng, tier, tmpdir):
     # listed in an arbitrary order; for Verilog some never get a top instance at all
     for k in range(6 if tier == 'quick' else 40):
         fmt = 'edif' if k % 2 == 0 else 'verilog'
-        yield ('chains-%d' % k, fmt, chains_netlist(rng, with_top=(fmt == 'edif' or k % 4 == 1)))
+        cn = chains_netlist(rng, with_top=(fmt == 'edif' or k % 4 == 1))
+        if k % 3 == 0:
+            one_bit_buses(cn, rng)
+        yield ('chains-%d%s' % (k, '-onebit' if k % 3 == 0 else ''), fmt, cn)
     ngen = 24 if tier == 'quick' else 150
     for k in range(ngen):
         fmt = ('edif', 'verilog', 'eblif')[k % 3] if k % 4 else rng.choice(['edif', 'verilog'])
@@ -253,6 +270,8 @@ def netlists(rng, tier, tmpdir):
         if rng.random() < 0.7:
             decorate(n, rng)
         label = 'netgen-%d' % k
+        if fmt != 'eblif' and k % 2 == 0 and one_bit_buses(n, rng):
+            label += '-onebit'
         if fmt == 'edif' and rng.random() < 0.7:
             # the cells are listed in an arbitrary order (not dependencies-first) before the EDIF writer sees them:
             # its re-ordering is a documented side effect, but it must be the same every time
